@@ -51,6 +51,45 @@ TRUSTED = ["ASan/UBSan/_GLIBCXX_ASSERTIONS as fault detectors on the implementat
 KEEP_FIRST = 1
 
 
+def sec_table(img, cap=64):
+    """(section types+names, segment types) as the (possibly corrupted) tables of the image say"""
+    try:
+        ns, ng = counts(img)
+        if ns > cap or ng > cap:
+            return [], []
+        d = elfspec.decode(img)
+        if d is None:
+            return [], []
+        return [(s["sh_type"], s.get("name"), s["sh_size"]) for s in d["sections"]], [g["p_type"] for g in d["segments"]]
+    except Exception:
+        return [], []
+
+
+ACC_OPS = ["notes", "dyn", "syms", "modinfo"]
+
+
+def typed_lines(img, rng, p_any=0.12):
+    """accessor ops chosen by section/segment type as the image declares it, a few accessors on sections of
+    any other type (the property speaks about every reader on every section), indices beyond the tables"""
+    secs, segs = sec_table(img)
+    L = []
+    for k, (ty, name, size) in enumerate(secs[:24]):
+        if ty == elfspec.SHT_NOTE: L.append(f"notes {k}")
+        if ty == elfspec.SHT_DYNAMIC: L.append(f"dyn {k}")
+        if ty in (elfspec.SHT_SYMTAB, elfspec.SHT_DYNSYM): L.append(f"syms {k}")
+        if name is not None and name.startswith(b".modinf") and size <= 16384: L.append(f"modinfo {k}")
+        if ty == elfspec.SHT_STRTAB:
+            for idx in (0, 1, 2, 5, 4294967295): L.append(f"str {k} {idx}")
+        if rng.random() < p_any and size <= 4096:     # (the modinfo parser MODEL is quadratic in the section size)
+            L.append(f"{rng.choice(ACC_OPS)} {k}")
+    for j, ty in enumerate(segs[:10]):
+        if ty == elfspec.PT_NOTE or rng.random() < p_any:
+            L.append(f"segnotes {j}")
+    if rng.random() < 0.3:
+        L += [f"{rng.choice(ACC_OPS)} {len(secs) + rng.choice([0, 1, 70000])}", f"segnotes {len(segs) + rng.choice([0, 1])}"]
+    return L
+
+
 def inspect_lines(img, rng):
     L = observe_lines(img, max_sec=24, max_seg=10)
     ns, _ = counts(img)
@@ -58,13 +97,57 @@ def inspect_lines(img, rng):
         for idx in (0, 1, len(img), 4294967295):
             if rng.random() < 0.3:
                 L.append(f"str {k} {idx}")
+    T = typed_lines(img, rng)
     if ns <= 1500:          # validate() is quadratic in the section count: 65535 zeroed sections
-        L += ["validate", "dump"]   # take minutes under ASan (it does return); not a termination issue
+        # take minutes under ASan (it does return); not a termination issue.  dump before and after the
+        # accessor ops: lazily loaded sections are made resident by whichever comes first
+        L += (["dump"] + T if rng.random() < 0.5 else T + ["dump"]) + ["validate"]
+    else:
+        L += T
     return L
 
 
+def note_image(cls, enc, body, as_segment, pad=0):
+    """minimal image: ELF header, `body`, `pad` foreign bytes, section headers (null, SHT_NOTE over `body`),
+    optionally one PT_NOTE program header over the same bytes"""
+    eh, shs, phs = elfspec.EHSIZE[cls], elfspec.SHSIZE[cls], elfspec.PHSIZE[cls]
+    off = eh + (phs if as_segment else 0)
+    shoff = off + len(body) + pad
+    ident = b"\x7fELF" + bytes([1 if cls == 32 else 2, 1 if enc == "lsb" else 2, 1]) + bytes(9)
+    ehdr = {"e_type": 1, "e_machine": 62, "e_version": 1, "e_entry": 0, "e_phoff": eh if as_segment else 0, "e_shoff": shoff,
+            "e_flags": 0, "e_ehsize": eh, "e_phentsize": phs, "e_phnum": 1 if as_segment else 0, "e_shentsize": shs,
+            "e_shnum": 2, "e_shstrndx": 0}
+    z = {n: 0 for n, _ in elfspec.SHDR[cls]}
+    sh = dict(z, sh_type=elfspec.SHT_NOTE, sh_offset=off, sh_size=len(body), sh_addralign=4)
+    img = ident + elfspec.pack(elfspec.EHDR[cls], ehdr, enc)
+    if as_segment:
+        img += elfspec.pack(elfspec.PHDR[cls], {"p_type": elfspec.PT_NOTE, "p_flags": 4, "p_offset": off, "p_vaddr": 0, "p_paddr": 0,
+                                                "p_filesz": len(body), "p_memsz": len(body), "p_align": 4}, enc)
+    img += body + bytes([0xEE]) * pad + elfspec.pack(elfspec.SHDR[cls], z, enc) + elfspec.pack(elfspec.SHDR[cls], sh, enc)
+    return img
+
+
+def note_scope_cases(rng, tier):
+    """small scope, one note: every (namesz, descsz) in [0,9]^2 x every body size from 0 to the full encoding + 2
+    (the tail of the body is foreign bytes) -- all of it in the thorough tier, a random sample in the quick tier"""
+    scope = []
+    for nsz in range(10):
+        for dsz in range(10):
+            full = 12 + elfspec.up4(nsz) + elfspec.up4(dsz)
+            for size in range(0, full + 3):
+                scope.append((nsz, dsz, size))
+    pick = scope if tier != "quick" else rng.sample(scope, 70)
+    for t, (nsz, dsz, size) in enumerate(pick):
+        cls, enc = CFGS[t % 4]
+        seg = (t // 4) % 2 == 1
+        img = note_image(cls, enc, elfspec.note_scope(enc, nsz, dsz, size), seg, pad=rng.choice([0, 0, 16]))
+        lazy = rng.choice([0, 1])
+        L = [f"load {hx(img)} lazy={lazy} kind=str", "notes 1"] + (["segnotes 0"] if seg else []) + ["dump", "sec 1"]
+        yield {"id": f"note-{nsz}-{dsz}-{size}-{t % 4}{'g' if seg else 's'}", "lines": L, "meta": {"img": img}}
+
+
 def gen_cases(rng, tier):
-    n = 150 if tier == "quick" else 3000
+    n = 260 if tier == "quick" else 3000
     ex_small = [b for f, b in examples(20000)]
     crash = [(f, b) for f, b in examples() if f.startswith("crash")]
     k = 0
@@ -74,15 +157,22 @@ def gen_cases(rng, tier):
     for i in range(n):
         cls, enc = CFGS[i % 4]
         r = rng.random()
-        if r < 0.15:
+        if r < 0.10:
             ident = b"\x7fELF" + bytes([1 if cls == 32 else 2, 1 if enc == "lsb" else 2, 1]) + bytes(9)
             img = ident + bytes(rng.randrange(256) for _ in range(rng.choice([0, 10, 36, 48, 64, 200, 600])))
-        elif r < 0.75 or not ex_small:
+        elif r < 0.55:
+            # typed tables (notes, dynamic, symbols + strings, modinfo; PT_NOTE over note sections) whose contents
+            # carry their own field-level corruptions; the image around them intact, or mutated as the others
+            img = elfspec.encode(elfspec.random_model(rng, cls, enc, typed=0.65))
+            if rng.random() < 0.5:
+                img = elfspec.mutate(rng, img, n=rng.choice([1, 1, 2]))
+        elif r < 0.82 or not ex_small:
             img = elfspec.mutate(rng, elfspec.encode(elfspec.random_model(rng, cls, enc)))
         else:
             img = elfspec.mutate(rng, rng.choice(ex_small))
         lazy = rng.choice([0, 1]); kind = rng.choice(["str", "str", "file"])
         yield {"id": f"m{i}", "lines": [f"load {hx(img)} lazy={lazy} kind={kind}"] + inspect_lines(img, rng), "meta": {"img": img}}
+    yield from note_scope_cases(rng, tier)
     # F11 witness: a section covering the whole file
     m = elfspec.random_model(rng, 64, "lsb", nsec=2, nseg=0)
     img = bytearray(elfspec.encode(m))
@@ -123,4 +213,13 @@ def classify(case, out):
     ks = [x for x in case["lines"][0].split()[2:]]
     ks.append("loaded" if out and out[0].startswith("load=true") else "rejected")
     if any(o.startswith("idx=") and "data=null" not in o for o in out): ks.append("has-data")
+    import re
+    for o in out:
+        m = re.match(r"(notes|segnotes|dyn|syms|modinfo) n=(\d+)", o)
+        if m:
+            ks.append(m.group(1)); ks.append(m.group(1) + ("-nonempty" if int(m.group(2)) else "-empty"))
+            if m.group(1) in ("notes", "segnotes") and re.search(r":\d+/[0-9a-f-]+/[0-9a-f]+/", o): ks.append("note-desc-read")
+            if m.group(1) == "dyn" and ":true/" in o: ks.append("dyn-entry-read")
+            if m.group(1) == "syms" and ":true/" in o: ks.append("sym-read")
+    if any(o == "dump=ok" for o in out): ks.append("dump")
     return ks
